@@ -159,6 +159,12 @@ func SelfTestSM2() error {
 	if !BaseMul(SM2N).Inf {
 		return fmt.Errorf("ref.SM2: [n]G != infinity")
 	}
+	for _, h := range []string{"1", "2", "3", "ff", "FFFFFFFEFFFFFFFFFFFFFFFFFFFFFFFF7203DF6B21C6052B53BBF40939D54122", "8000000000000000000000000000000000000000000000000000000000000000", "deadbeef00000000000000000000000000000000000000000000000012345679"} {
+		k := hexInt(h)
+		if !BaseMul(k).Eq(BaseMulFast(k)) {
+			return fmt.Errorf("ref.SM2: BaseMulFast disagrees with BaseMul on %s", h)
+		}
+	}
 	// GM/T 0003.5 key pair example
 	d := hexInt("3945208F7B2144B13F36E38AC6D39F95889393692860B51A42FB81EF4DF7C5B8")
 	pub := BaseMul(d)
